@@ -86,33 +86,37 @@
         if !this.reader.instances.iter().any(|x| x.handle() == h) {
             return Err(DdsError::BadParameter);
         }
-        let mut out: SampleList = Vec::new();
+        // first stored sample of the requested instance (the harnesses hold at most one sample per instance)
+        let mut found: Option<usize> = None;
         let mut i = 0;
         while i < this.reader.sample_list.len() {
-            let s = &this.reader.sample_list[i];
-            if &s.instance_handle == h && (out.len() as i32) < max_samples {
-                out.push((s.data_value.clone(), crate::infrastructure::sample_info::SampleInfo {
-                    sample_state: s.sample_state,
-                    view_state: ViewStateKind::New,
-                    instance_state: InstanceStateKind::Alive,
-                    disposed_generation_count: s.disposed_generation_count,
-                    no_writers_generation_count: s.no_writers_generation_count,
-                    sample_rank: 0,
-                    generation_rank: 0,
-                    absolute_generation_rank: 0,
-                    source_timestamp: s.source_timestamp,
-                    instance_handle: s.instance_handle,
-                    publication_handle: InstanceHandle::new(s.writer_guid),
-                    valid_data: true,
-                }));
+            if found.is_none() && &this.reader.sample_list[i].instance_handle == h && max_samples > 0 {
+                found = Some(i);
             }
             i += 1;
         }
-        if out.is_empty() { Err(DdsError::NoData) } else { Ok(out) }
+        let Some(k) = found else { return Err(DdsError::NoData) };
+        let s = &this.reader.sample_list[k];
+        let mut out: SampleList = Vec::new();
+        out.push((s.data_value.clone(), crate::infrastructure::sample_info::SampleInfo {
+            sample_state: s.sample_state,
+            view_state: ViewStateKind::New,
+            instance_state: InstanceStateKind::Alive,
+            disposed_generation_count: s.disposed_generation_count,
+            no_writers_generation_count: s.no_writers_generation_count,
+            sample_rank: 0,
+            generation_rank: 0,
+            absolute_generation_rank: 0,
+            source_timestamp: s.source_timestamp,
+            instance_handle: s.instance_handle,
+            publication_handle: InstanceHandle::new(s.writer_guid),
+            valid_data: true,
+        }));
+        Ok(out)
     }
 
     /// C23: read_next_instance skips instances without matching samples.  A reader that knows instance 1 (no sample left,
-    /// e.g. all taken) and instance 2 (one NOT_READ ALIVE sample); masks ANY, max_samples 5; previous handle arbitrary among
+    /// e.g. all taken; twin obligation: one NOT_ALIVE dispose sample) and instance 2 (one ALIVE sample); masks ANY, max_samples 5; previous handle arbitrary among
     /// {none, 0, 1, 2}: for every previous handle below 2 the call returns the sample of instance 2 - the first instance
     /// above the given handle that HAS samples matching the masks - and NoData only for previous = 2, when no such
     /// instance exists.
@@ -127,10 +131,44 @@
     #[cfg_attr(kani, kani::stub(alloc::fmt::format, verif_support::fmt_format_stub))]
     #[cfg_attr(kani, kani::stub(UserDefinedDataReader::read, read_contract_stub))]
     fn c23_read_next_instance_skips_instances_without_matching_samples() {
+        check_c23_read(false);
+    }
+
+    /// C23 (read_next_instance): instance 1 holds ONE NOT_ALIVE (dispose) sample - it matches masks ANY, so the walk must visit
+    /// instance 1 first, not skip it for lack of an ALIVE sample.
+    /// @props C23
+    /// @kind bounded
+    /// @tier quick
+    /// @timeout 1200
+    /// @bounds 2 known instances, 2 stored samples (one NOT_ALIVE_DISPOSED, one ALIVE), masks ANY; read/take replaced by its contract (stub)
+    /// @cbmc --unwind 4 --unwindset memcmp.0:18
+    /// @fn UserDefinedDataReader::read_next_instance, DataReaderEntity::next_instance
+    #[cfg_attr(kani, kani::proof)]
+    #[cfg_attr(kani, kani::stub(alloc::fmt::format, verif_support::fmt_format_stub))]
+    #[cfg_attr(kani, kani::stub(UserDefinedDataReader::read, read_contract_stub))]
+    fn c23_read_next_instance_visits_instance_with_only_not_alive_samples() {
+        check_c23_read(true);
+    }
+
+    fn check_c23_read(inst1_has_sample: bool) {
         let mut r = mk_user_reader();
         r.reader.enabled = true;
         r.reader.instances.push(InstanceState::new(ihb(1)));
         r.reader.instances.push(InstanceState::new(ihb(2)));
+        // instance 1 either has no sample left or holds one NOT_ALIVE (dispose) sample; instance 2 holds one sample of an
+        // arbitrary kind: a sample matches masks ANY whatever its kind
+        if inst1_has_sample {
+            r.reader.sample_list.push(ReaderSample {
+                kind: ChangeKind::NotAliveDisposed,
+                writer_guid: [7; 16],
+                instance_handle: ihb(1),
+                source_timestamp: None,
+                data_value: Arc::from([41u8].as_slice()),
+                sample_state: SampleStateKind::NotRead,
+                disposed_generation_count: 0,
+                no_writers_generation_count: 0,
+            });
+        }
         r.reader.sample_list.push(ReaderSample {
             kind: ChangeKind::Alive,
             writer_guid: [7; 16],
@@ -148,7 +186,13 @@
             &[SampleStateKind::Read, SampleStateKind::NotRead],
             &[ViewStateKind::New, ViewStateKind::NotNew],
             &[InstanceStateKind::Alive, InstanceStateKind::NotAliveDisposed, InstanceStateKind::NotAliveNoWriters]);
-        if sel <= 2 {
+        if sel <= 1 && inst1_has_sample {
+            match &res {
+                Ok(l) => assert!(l.len() == 1 && l[0].1.instance_handle == ihb(1) && l[0].0[0] == 41,
+                    "C23: an instance whose only samples are NOT_ALIVE ones still has matching samples and is visited first"),
+                Err(_) => assert!(false, "C23: NoData only if no instance above the given handle has matching samples"),
+            }
+        } else if sel <= 2 {
             match &res {
                 Ok(l) => assert!(l.len() == 1 && l[0].1.instance_handle == ihb(2) && l[0].0[0] == 42,
                     "C23: the samples of the first instance above the given handle that has matching samples are returned"),
@@ -164,7 +208,7 @@
     }
 
     /// C23: take_next_instance skips instances without matching samples (twin of the read obligation).  A reader that knows instance 1 (no sample left,
-    /// e.g. all taken) and instance 2 (one NOT_READ ALIVE sample); masks ANY, max_samples 5; previous handle arbitrary among
+    /// e.g. all taken; twin obligation: one NOT_ALIVE dispose sample) and instance 2 (one ALIVE sample); masks ANY, max_samples 5; previous handle arbitrary among
     /// {none, 0, 1, 2}: for every previous handle below 2 the call returns the sample of instance 2 - the first instance
     /// above the given handle that HAS samples matching the masks - and NoData only for previous = 2, when no such
     /// instance exists.
@@ -179,10 +223,44 @@
     #[cfg_attr(kani, kani::stub(alloc::fmt::format, verif_support::fmt_format_stub))]
     #[cfg_attr(kani, kani::stub(UserDefinedDataReader::take, read_contract_stub))]
     fn c23_take_next_instance_skips_instances_without_matching_samples() {
+        check_c23_take(false);
+    }
+
+    /// C23 (take_next_instance): instance 1 holds ONE NOT_ALIVE (dispose) sample - it matches masks ANY, so the walk must visit
+    /// instance 1 first, not skip it for lack of an ALIVE sample.
+    /// @props C23
+    /// @kind bounded
+    /// @tier quick
+    /// @timeout 1200
+    /// @bounds 2 known instances, 2 stored samples (one NOT_ALIVE_DISPOSED, one ALIVE), masks ANY; read/take replaced by its contract (stub)
+    /// @cbmc --unwind 4 --unwindset memcmp.0:18
+    /// @fn UserDefinedDataReader::take_next_instance, DataReaderEntity::next_instance
+    #[cfg_attr(kani, kani::proof)]
+    #[cfg_attr(kani, kani::stub(alloc::fmt::format, verif_support::fmt_format_stub))]
+    #[cfg_attr(kani, kani::stub(UserDefinedDataReader::take, read_contract_stub))]
+    fn c23_take_next_instance_visits_instance_with_only_not_alive_samples() {
+        check_c23_take(true);
+    }
+
+    fn check_c23_take(inst1_has_sample: bool) {
         let mut r = mk_user_reader();
         r.reader.enabled = true;
         r.reader.instances.push(InstanceState::new(ihb(1)));
         r.reader.instances.push(InstanceState::new(ihb(2)));
+        // instance 1 either has no sample left or holds one NOT_ALIVE (dispose) sample; instance 2 holds one sample of an
+        // arbitrary kind: a sample matches masks ANY whatever its kind
+        if inst1_has_sample {
+            r.reader.sample_list.push(ReaderSample {
+                kind: ChangeKind::NotAliveDisposed,
+                writer_guid: [7; 16],
+                instance_handle: ihb(1),
+                source_timestamp: None,
+                data_value: Arc::from([41u8].as_slice()),
+                sample_state: SampleStateKind::NotRead,
+                disposed_generation_count: 0,
+                no_writers_generation_count: 0,
+            });
+        }
         r.reader.sample_list.push(ReaderSample {
             kind: ChangeKind::Alive,
             writer_guid: [7; 16],
@@ -200,7 +278,13 @@
             &[SampleStateKind::Read, SampleStateKind::NotRead],
             &[ViewStateKind::New, ViewStateKind::NotNew],
             &[InstanceStateKind::Alive, InstanceStateKind::NotAliveDisposed, InstanceStateKind::NotAliveNoWriters]);
-        if sel <= 2 {
+        if sel <= 1 && inst1_has_sample {
+            match &res {
+                Ok(l) => assert!(l.len() == 1 && l[0].1.instance_handle == ihb(1) && l[0].0[0] == 41,
+                    "C23: an instance whose only samples are NOT_ALIVE ones still has matching samples and is visited first"),
+                Err(_) => assert!(false, "C23: NoData only if no instance above the given handle has matching samples"),
+            }
+        } else if sel <= 2 {
             match &res {
                 Ok(l) => assert!(l.len() == 1 && l[0].1.instance_handle == ihb(2) && l[0].0[0] == 42,
                     "C23: the samples of the first instance above the given handle that has matching samples are returned"),
